@@ -12,7 +12,7 @@ use oq3_parser::{LexedStr, StrStep, TopEntryPoint};
 pub fn meta() -> Meta {
     Meta {
         level: "exploration",
-        rule: "every string of at most k atoms over five 14-symbol critical alphabets (E-CHAR), every token sequence of at most L tokens over the full lexer-producible token alphabet derived from SyntaxKind (E-TOK, spaced and tight renderings; text level through both parse entry points, parser level without tree building for the longest length), and the scaling families E-SCALE; each input enumerated once; non-trivial = the tree contains at least one statement node; outcomes = distinct tree shapes",
+        rule: "every string of at most k atoms over five 14-symbol critical alphabets (E-CHAR), every token sequence of at most L tokens over the full lexer-producible token alphabet derived from SyntaxKind (E-TOK, spaced, tight and comment-separated renderings; text level through both parse entry points, parser level without tree building for the longest length), and the scaling families E-SCALE; each input enumerated once; non-trivial = the tree contains at least one statement node; outcomes = distinct tree shapes",
         assumptions: vec![
             "strict build profile: debug assertions and overflow checks on",
             "hook oq3_verif: idle counter of the parser turns a non-consuming grammar loop into a panic; counters give look-aheads and events per token",
@@ -313,21 +313,33 @@ pub fn text_spaces(tier: Tier, oracle: fn(&str, &mut Ctx)) -> Vec<Box<dyn Space>
         Tier::Quick => {
             v.push(TextSpace::toks(etok(true, 3, Render::Spaced), oracle));
             v.push(TextSpace::toks(etok(false, 3, Render::Tight), oracle));
+            v.push(TextSpace::toks(etok(false, 3, Render::Commented), oracle));
         }
         Tier::Thorough => {
             v.push(TextSpace::toks(etok(true, 3, Render::Spaced), oracle));
             v.push(TextSpace::toks(etok(true, 3, Render::Tight), oracle));
+            v.push(TextSpace::toks(etok(true, 3, Render::Commented), oracle));
             v.push(TextSpace::toks(etok(false, 4, Render::Spaced), oracle));
         }
     }
     v
 }
 
+fn fault_oracle(case: &crate::model::ProgCase, _index: u64, ctx: &mut Ctx) {
+    crate::props::gprog::for_each_fault(case, &mut |t| {
+        ctx.count("single_fault_texts", 1);
+        oracle(t, ctx)
+    });
+}
+
 pub fn spaces(tier: Tier, _seed: u64) -> Vec<Box<dyn Space>> {
     let mut v = text_spaces(tier, oracle);
+    v.push(crate::props::gprog::fault_programs(0, fault_oracle));
+    v.push(TextSpace::list("PREFIXES/long-program", crate::props::gprog::prefix_texts(), 32, oracle));
     match tier {
         Tier::Quick => v.push(Box::new(Scale { max_nest: 64, max_flat: 1024 })),
         Tier::Thorough => {
+            v.push(crate::props::gprog::fault_programs(1, fault_oracle));
             v.push(Box::new(Scale { max_nest: 256, max_flat: 16384 }));
             v.push(TextSpace::toks(etok(false, 4, Render::Tight), oracle));
             if std::env::var("VERIF_C01_LEN5").map(|v| v != "0").unwrap_or(true) {
